@@ -166,6 +166,17 @@ def run(rep, tier, rng):
                        "when given), iterated to the end keeping every item, then read by index, under a counting global "
                        "allocator; oracle: peak live bytes above the baseline <= 64 * input bytes + 64 KiB and no single "
                        "request above it; non-trivial = distinct input" % len(inputs))
+    # a sample of the inputs also as files on disk opened by path (the reader then owns its buffered readers: whatever
+    # it sizes them by must be bounded too); std's own 8 KiB buffers are inside the slack
+    import os
+    os.environ["SFV_TMP"] = os.path.join(sfv.CACHE, "tmp")
+    os.makedirs(os.environ["SFV_TMP"], exist_ok=True)
+    by_path = [(lab, shp, shx) for (lab, shp, shx) in inputs if lab.startswith(("index ", "valid", "honest", "shx:length", "shx:offset", "headers only"))]
+    if tier != "thorough":
+        by_path = [x for i, x in enumerate(by_path) if i % 3 == 0]
+    inputs += [("by path: " + lab, shp, shx) for (lab, shp, shx) in by_path]
+    cases += [[8, 3 if shx is not None else 2] + C.pack_bytes(shp) + (C.pack_bytes(shx) if shx is not None else []) for (_, shp, shx) in by_path]
+    rep.cov["inputs_also_opened_by_path"] = len(by_path)
     impl = sfv.run_impl(dev, cases)
     nfail, worst = 0, (0, "")
     for (label, shp, shx), c, r in zip(inputs, cases, impl):
